@@ -316,9 +316,10 @@ class HasPropertyLayers:
         mask = np.zeros(self.dimensions, dtype=bool)
 
         # Convert the neighborhood list to a NumPy array and use advanced indexing
-        coords = np.array([c.coordinate for c in neighborhood])
-        indices = [coords[:, i] for i in range(coords.shape[1])]
-        mask[*indices] = True
+        if len(neighborhood) > 0:
+            coords = np.array([c.coordinate for c in neighborhood])
+            indices = [coords[:, i] for i in range(coords.shape[1])]
+            mask[*indices] = True
         return mask
 
     def select_cells(
